@@ -84,6 +84,14 @@ pub fn dead_code_elimination(function: &il::Function) -> Result<il::Function, Er
                 })
                 .unwrap_or(false)
         })
+        // only assignments and loads are candidates, an intrinsic has effects
+        // beyond the scalars it may declare
+        .filter(|location| {
+            location
+                .instruction()
+                .map(|instruction| instruction.is_assign() || instruction.is_load())
+                .unwrap_or(false)
+        })
         .filter(|location| !live.contains(&location.clone().into()))
         .filter(|location| du[&location.clone().program_location(function).into()].is_empty())
         .map(|l| l.into())
